@@ -268,12 +268,12 @@ def strat_multi():
 def subchecks():
     return [
         SubCheck(name="observation_rows_aligned", mode="given", strategy=strat_obs, run_case=run_obs,
-                 counts={"quick": 150, "thorough": 12000}, shards={"quick": 3, "thorough": 16}, clear_every=60,
+                 counts={"quick": 150, "thorough": 12000}, shards={"quick": 3, "thorough": 16}, clear_every=30,
                  min_nontrivial_frac=0.25, doc="every batch row's (input, value, observed parameters) comes from one table row"),
         SubCheck(name="parameter_samples_per_key", mode="given", strategy=strat_param, run_case=run_param,
-                 counts={"quick": 150, "thorough": 12000}, shards={"quick": 3, "thorough": 16}, clear_every=60,
+                 counts={"quick": 150, "thorough": 12000}, shards={"quick": 3, "thorough": 16}, clear_every=30,
                  min_nontrivial_frac=0.25, doc="ranged keys within their own range, table keys (both shapes, table wins) preserved"),
         SubCheck(name="multi_network_loader", mode="given", strategy=strat_multi, run_case=run_multi,
-                 counts={"quick": 80, "thorough": 6000}, shards={"quick": 2, "thorough": 16}, clear_every=60,
+                 counts={"quick": 80, "thorough": 6000}, shards={"quick": 2, "thorough": 16}, clear_every=30,
                  min_nontrivial_frac=0.2, doc="one aligned batch per network, empty entry for networks without observations"),
     ]
